@@ -25,7 +25,7 @@ Originals ==
     WireMsg(0, NOBLE, "d1", 2, ModulePadded, M1, Zero32, Raw(1, 40)),
     [k |-> "short", len |-> 115, id |-> 1] }
 NewCallers == IF Thorough THEN {Zero32, B("j", "x2"), Empty, Bytes(31, "junk")} ELSE {Zero32, B("j", "x2"), Empty}
-NewBodies  == IF Thorough THEN {Raw(2, 12), Raw(2, 0), Raw(2, 200), Raw(2, 201), DepBody("a1", 3)} ELSE {Raw(2, 12), Raw(2, 201), DepBody("a1", 3)}
+NewBodies  == IF Thorough THEN {Raw(2, 12), Raw(1, 0), Raw(2, 200), Raw(2, 201), DepBody("a1", 3)} ELSE {Raw(2, 12), Raw(2, 201), DepBody("a1", 3)}
 NewRcpts   == IF Thorough THEN {B("j", "x2"), Pad("a2"), Zero32, Empty, Bytes(31, "junk")} ELSE {B("j", "x2"), Zero32, Bytes(31, "junk")}
 
 MCMsgs(s, h) ==
